@@ -17,6 +17,7 @@ import (
 	"encoding/json"
 	"fmt"
 	"io"
+	"math/big"
 	"os"
 	"os/exec"
 	"runtime"
@@ -26,6 +27,7 @@ import (
 	"time"
 
 	"github.com/kstenerud/go-concise-encoding/cbe"
+	"github.com/kstenerud/go-concise-encoding/ce"
 	"github.com/kstenerud/go-concise-encoding/ce/events"
 	"github.com/kstenerud/go-concise-encoding/configuration"
 	"github.com/kstenerud/go-concise-encoding/cte"
@@ -55,6 +57,8 @@ type costJob struct {
 	Label  string `json:"label"`
 	Relax  bool   `json:"relax"`  // scaling documents: object / marker count limits out of the way
 	Bare   bool   `json:"bare"`   // decode into a receiver without rules
+	Tmpl   string `json:"tmpl"`   // non-empty: unmarshal into this template instead of decoding
+	MaxSec int    `json:"max_sec"` // stop the job after this many seconds (0 = jobTimeLimit)
 }
 
 type costResult struct {
@@ -64,7 +68,10 @@ type costResult struct {
 	Err    string `json:"err"`
 	Panic  string `json:"panic"`
 	Events int    `json:"events"`
+	Slow   bool   `json:"slow"` // stopped by the harness after jobTimeLimit
 }
+
+const jobTimeLimit = 120 * time.Second
 
 func uleb(v uint64) []byte {
 	var out []byte
@@ -194,11 +201,21 @@ func runCostJobs(c *Check, jobs []costJob) map[int]costResult {
 		sc.Buffer(make([]byte, 1<<20), 1<<26)
 		last := -1
 		started := -1
-		timer := time.AfterFunc(30*time.Minute, func() { cmd.Process.Kill() })
+		timedOut := false
+		// one job may take two minutes (all repetitions together); then the child is stopped
+		timer := time.AfterFunc(10*time.Minute, func() { cmd.Process.Kill() })
 		for sc.Scan() {
 			line := sc.Text()
 			if strings.HasPrefix(line, "START ") {
 				fmt.Sscanf(line, "START %d", &started)
+				timer.Stop()
+				lim := jobTimeLimit
+				for _, j := range pending {
+					if j.ID == started && j.MaxSec > 0 {
+						lim = time.Duration(j.MaxSec) * time.Second
+					}
+				}
+				timer = time.AfterFunc(lim, func() { timedOut = true; cmd.Process.Kill() })
 				continue
 			}
 			if !strings.HasPrefix(line, "RESULT ") {
@@ -235,6 +252,9 @@ func runCostJobs(c *Check, jobs []costJob) map[int]costResult {
 			}
 		}
 		results[killed.ID] = costResult{ID: killed.ID, Panic: "the process died: " + firstLines(stderr.String(), 6)}
+		if timedOut {
+			results[killed.ID] = costResult{ID: killed.ID, Slow: true, CPUns: int64(jobTimeLimit)}
+		}
 		var next []costJob
 		for _, j := range rest {
 			if j.ID != killed.ID {
@@ -254,6 +274,39 @@ func cpuNow() int64 {
 	var ru syscall.Rusage
 	syscall.Getrusage(syscall.RUSAGE_SELF, &ru)
 	return ru.Utime.Nano() + ru.Stime.Nano()
+}
+
+type c08BigFields struct {
+	I  big.Int
+	PI *big.Int
+	F  big.Float
+	PF *big.Float
+}
+
+func c08Template(name string) interface{} {
+	switch name {
+	case "nil":
+		return nil
+	case "big-int":
+		return (*big.Int)(nil)
+	case "big-float":
+		return (*big.Float)(nil)
+	case "float64":
+		return float64(0)
+	case "float32":
+		return float32(0)
+	case "int64":
+		return int64(0)
+	case "uint8":
+		return uint8(0)
+	case "string":
+		return ""
+	case "big-list":
+		return []*big.Int{}
+	case "big-fields":
+		return c08BigFields{}
+	}
+	panic("harness: c08 template " + name)
 }
 
 func c08Child(c *Check) {
@@ -301,9 +354,17 @@ func c08Child(c *Check) {
 			t0 := cpuNow()
 			func() {
 				defer func() { pan = recover() }()
-				if j.Format == "cbe" {
+				switch {
+				case j.Tmpl != "":
+					tmpl := c08Template(j.Tmpl)
+					if j.Format == "cbe" {
+						_, decErr = ce.UnmarshalFromCBEDocument(doc, tmpl, cfg)
+					} else {
+						_, decErr = ce.UnmarshalFromCTEDocument(doc, tmpl, cfg)
+					}
+				case j.Format == "cbe":
 					decErr = cbe.NewDecoder(cfg).Decode(bytes.NewReader(doc), recv)
-				} else {
+				default:
 					decErr = cte.NewDecoder(cfg).Decode(bytes.NewReader(doc), recv)
 				}
 			}()
@@ -458,7 +519,7 @@ func scalingDoc(family string, n int) (format string, doc []byte) {
 }
 
 func checkC08(c *Check) {
-	c.Rule = "Alloc.tla models the CBE reader (a length field announces the bytes that follow; the validator sees the announcement before the reader reserves twice that size) and proves Bounded (what is reserved never exceeds start + 2*max(limit, reader ceiling, bytes present + 1)) and RefusedIsFree (an announcement beyond the limit reserves nothing). TLC emits every (field kind: array chunk, short string, media type, media data, custom data, identifier, big integer, second chunk) x (announced length class: 0, fits, exact, one more than present, limit, limit+1, 2^32-1, 2^40, 2^63-1) x (bytes present) x (MaxArraySizeBytes setting) case with the model's verdict; each becomes real CBE documents (element widths 1 bit, 1 and 8 bytes) decoded with rules in a child process: the process must survive, the verdict must match, and runtime.MemStats.TotalAlloc around the one Decode call must stay within base + 64*len(doc) + 3*(the model's reservation bound) - refused announcements within base + 64*len(doc). Scaling: CBE and CTE document families (tiny tokens, deep nesting, long/escaped strings, map keys, markers, comments, arrays) at n, 2n, 4n bytes: allocation per byte bounded by a per-format constant and alloc(4n) <= 6*alloc(n); CPU time (min of repetitions, getrusage; re-measured before it is believed) t(4n) <= 10*t(n) or t(4n) <= 3*t(2n). non-trivial = announced length differs from the bytes present or a scaling point; distinct = documents"
+	c.Rule = "Alloc.tla models the CBE reader (a length field announces the bytes that follow; the validator sees the announcement before the reader reserves twice that size) and proves Bounded (what is reserved never exceeds start + 2*max(limit, reader ceiling, bytes present + 1)) and RefusedIsFree (an announcement beyond the limit reserves nothing). TLC emits every (field kind: array chunk, short string, media type, media data, custom data, identifier, big integer, second chunk) x (announced length class: 0, fits, exact, one more than present, limit, limit+1, 2^32-1, 2^40, 2^63-1) x (bytes present) x (MaxArraySizeBytes setting) case with the model's verdict; each becomes real CBE documents (element widths 1 bit, 1 and 8 bytes) decoded with rules in a child process: the process must survive, the verdict must match, and runtime.MemStats.TotalAlloc around the one Decode call must stay within base + 64*len(doc) + 3*(the model's reservation bound) - refused announcements within base + 64*len(doc). Tiny documents with huge exponents (decimal and hexadecimal floats up to e2147483647) unmarshaled into every numeric destination (nil, *big.Int, *big.Float, float64/32, integers, string, lists and struct fields of them): within 4 MiB and 0.5 s of the same document with a small exponent. Scaling: CBE and CTE document families (tiny tokens, deep nesting, long/escaped strings, map keys, markers, comments, arrays) at n, 2n, 4n bytes: allocation per byte bounded by a per-format constant and alloc(4n) <= 6*alloc(n); CPU time (min of repetitions, getrusage; re-measured before it is believed) t(4n) <= 10*t(n) or t(4n) <= 3*t(2n). non-trivial = announced length differs from the bytes present or a scaling point; distinct = documents"
 	c.Assumptions = []string{"runtime.MemStats.TotalAlloc as the measure of memory reserved by one Decode", "per-byte constants 64 (CBE) and 16384 (CTE; refused documents cost about 6000 in ANTLR's error path, ANTLR token stream and parse tree) bytes per document byte", "CPU time ratios are measured on a shared machine: threshold 10 for a 4x longer document, minimum of several runs", "the child's address space is capped (ulimit -v 12 GB) so that a runaway reservation fails there"}
 	thorough := c.Tier == "thorough"
 	limits, lens := "{1024, 65536, 1048576}", "{0, 1, 8, 200}"
@@ -534,6 +595,45 @@ func checkC08(c *Check) {
 			scaleDocLen[id] = len(doc)
 		}
 	}
+	// tiny documents, huge exponents: the cost of building the value must not depend on the exponent
+	type tinyMeta struct {
+		text, format, tmpl string
+		doc                []byte
+	}
+	tiny := map[int]tinyMeta{}
+	tinyBase := map[string]int{}
+	tmpls := []string{"nil", "big-int", "big-float", "float64", "float32", "int64", "uint8", "string", "big-list", "big-fields"}
+	for _, t := range tmpls {
+		for _, format := range []string{"cte", "cbe"} {
+			id++
+			tinyBase[format+t] = id
+			d := []byte("c0\n1.5")
+			if format == "cbe" {
+				d = convertCTEtoCBE(d, configuration.New()).Out
+			}
+			jobs = append(jobs, costJob{ID: id, Format: format, Doc: hex.EncodeToString(d), Tmpl: t, Label: "tiny baseline"})
+		}
+	}
+	for _, lit := range []string{"1e4000000", "1e-4000000", "-1.5e12000000", "1e2147483647", "1e-2147483647", "123456789012345678901234567890e99999999",
+		"0x1p1000000", "0x1p-1000000", "-0x1.8p100000000", "0x1p2147483647", "1e400", "1e-400", "0x1p1100", "1e50", "1e51", "1e308", "1e309"} {
+		for _, wrap := range []string{"%s", "[%s]", "{\"i\"=%s \"pi\"=%s \"f\"=%s \"pf\"=%s}"} {
+			text := "c0\n" + strings.ReplaceAll(wrap, "%s", lit)
+			cbeDoc := convertCTEtoCBE([]byte(text), configuration.New())
+			for _, t := range tmpls {
+				if (wrap == "[%s]") != (t == "big-list" || t == "nil") && wrap != "%s" && !(strings.HasPrefix(wrap, "{") && (t == "big-fields" || t == "nil")) {
+					continue
+				}
+				id++
+				jobs = append(jobs, costJob{ID: id, Format: "cte", Doc: hex.EncodeToString([]byte(text)), Tmpl: t, Reps: 1, Label: "tiny", MaxSec: 15})
+				tiny[id] = tinyMeta{text, "cte", t, []byte(text)}
+				if cbeDoc.Err == nil && cbeDoc.Panicked == nil && len(cbeDoc.Out) > 2 {
+					id++
+					jobs = append(jobs, costJob{ID: id, Format: "cbe", Doc: hex.EncodeToString(cbeDoc.Out), Tmpl: t, Reps: 1, Label: "tiny", MaxSec: 15})
+					tiny[id] = tinyMeta{text, "cbe", t, cbeDoc.Out}
+				}
+			}
+		}
+	}
 	// cte baseline
 	id++
 	cteBase := id
@@ -554,6 +654,10 @@ func checkC08(c *Check) {
 		wit := map[string]interface{}{"kind": "decode-cost", "format": "cbe", "doc": hex.EncodeToString(m.doc), "max_array_size_bytes": lim, "case": m.ac, "field": m.label,
 			"announced": n, "alloc": r.Alloc, "baseline_alloc": base, "err": r.Err, "panic": r.Panic}
 		desc := fmt.Sprintf("%s announcing %d bytes with %d present, MaxArraySizeBytes=%d (document %x)", m.label, n, m.ac.Have, lim, m.doc)
+		if r.Slow {
+			c.Violation(fmt.Sprintf("decoding does not finish within %v: %s", jobTimeLimit, desc), wit)
+			continue
+		}
 		if strings.HasPrefix(r.Panic, "the process died") {
 			c.Violation(fmt.Sprintf("decoding kills the process: %s: %s", desc, r.Panic), wit)
 			continue
@@ -587,6 +691,26 @@ func checkC08(c *Check) {
 			c.Sample(map[string]interface{}{"field": m.label, "doc": hex.EncodeToString(m.doc), "limit": lim, "alloc": r.Alloc, "budget": budget, "err": r.Err})
 		}
 	}
+	// tiny documents
+	for jid, tm := range tiny {
+		r := results[jid]
+		base := results[tinyBase[tm.format+tm.tmpl]]
+		c.Count(fmt.Sprintf("tiny|%s|%s|%x", tm.format, tm.tmpl, tm.doc), true)
+		wit := map[string]interface{}{"kind": "unmarshal-cost", "format": tm.format, "text": tm.text, "doc": hex.EncodeToString(tm.doc), "template": tm.tmpl, "alloc": r.Alloc, "cpu_ns": r.CPUns, "err": r.Err, "panic": r.Panic}
+		desc := fmt.Sprintf("unmarshaling the %d-byte %s document of %q into %s", len(tm.doc), tm.format, strings.TrimPrefix(tm.text, "c0\n"), tm.tmpl)
+		switch {
+		case r.Slow:
+			c.Violation(fmt.Sprintf("%s does not finish within 15 s", desc), wit)
+		case r.Panic != "":
+			c.Violation(fmt.Sprintf("%s panics or kills the process: %s", desc, r.Panic), wit)
+		case r.Alloc > base.Alloc+4<<20:
+			c.Violation(fmt.Sprintf("%s allocates %d bytes (a document of the same shape with a small exponent: %d); result: %s", desc, r.Alloc, base.Alloc, r.Err), wit)
+		case r.CPUns > base.CPUns+500e6:
+			c.Violation(fmt.Sprintf("%s takes %.2f s of CPU time (small exponent: %.4f s); result: %s", desc, float64(r.CPUns)/1e9, float64(base.CPUns)/1e9, r.Err), wit)
+		default:
+			c.AddTraces(1)
+		}
+	}
 	// scaling
 	perByte := map[string]uint64{"cbe": 64, "cte": 16384}
 	var report []string
@@ -603,6 +727,9 @@ func checkC08(c *Check) {
 		c.Count("scale|"+fam, true)
 		bad := false
 		for _, r := range []costResult{r1, r2, r4} {
+			if r.Slow {
+				r.Panic = fmt.Sprintf("stopped after %v", jobTimeLimit)
+			}
 			if r.Panic != "" {
 				c.Violation(fmt.Sprintf("decoding a %s document panics or kills the process: %s", fam, r.Panic), wit)
 				bad = true
